@@ -45,6 +45,11 @@ func policyFor(focus, mode string) policy {
 		p.cbRet, p.cbTake = 1, 3
 	case "shutdown":
 		p.done, p.cancelMain = 6, 2
+	case "overflow":
+		// callbacks are entered but never return until teardown: the queue fills up
+		p.cbRet, p.cbTake, p.report, p.mon = 0, 2, 40, 60
+		p.register, p.unregister, p.enable, p.cancel, p.done, p.reportErr = 1, 0, 0, 0, 0, 3
+		p.invalid, p.bad, p.blocking = 1, 0, 2
 	}
 	return p
 }
